@@ -156,7 +156,7 @@ StepRules(st, self, types, cache) ==
   (* ---------------- C09 (manager level) ---------------- *)
   \cup (IF (k = "Close" /\ has /\ ~term)
            => /\ st.ret = "nil" /\ Len(TrOf(st.tr, "close")) = 1
-              /\ Has(sends, LAMBDA n : n.to = OtherOf(id) /\ n.msg = CancelMsg(id))
+              /\ Has(sends, LAMBDA n : n.to = OtherOf(id) /\ n.msg = CancelMsg(id) /\ (s.sendFail = << >> => n.ok))
               /\ post.status = "Cancelled"
         THEN {} ELSE {"C09.close"})
   \cup (IF (k = "CloseErr" /\ has /\ ~term)
